@@ -12,6 +12,8 @@ All theorems are about the model.
 import TgModel.Lemmas.IdeSemRun
 import TgModel.Lemmas.IdeSemDiag
 import TgModel.Lemmas.IdeSemDiagCore
+import TgModel.Lemmas.IdeSemCore
+import TgModel.Props.C03
 
 namespace Tg.C13
 open Tg Tg.Ide Tg.Ide.Index
@@ -63,9 +65,11 @@ inductive Castable (sub : Nat → Nat → Bool) : Ty → Ty → Prop
   /-- `unknown` (the type of a value that could not be typed) is compatible with everything too -/
   | unknownL (b : Ty) : Castable sub .unknown b
   | unknownR (a : Ty) : Castable sub a .unknown
-  /-- `int` ↔ `bit`, `int` ↔ `bits<n>` -/
+  /-- `int` ↔ `bit`, `bit` ↔ `bits<1>`, `int` ↔ `bits<n>` -/
   | intBit : Castable sub .int .bit
   | bitInt : Castable sub .bit .int
+  | bitBits1 : Castable sub .bit (.bits 1)
+  | bits1Bit : Castable sub (.bits 1) .bit
   | intBits (n : Nat) : Castable sub .int (.bits n)
   | bitsInt (n : Nat) : Castable sub (.bits n) .int
   /-- `string` ↔ `code` -/
@@ -97,17 +101,19 @@ theorem canBeCastedTo_iff (sub : Nat → Nat → Bool) (a b : Ty) :
     | case6 => exact .unknownR _
     | case7 => exact .intBit
     | case8 => exact .bitInt
-    | case9 => exact .intBits _
-    | case10 => exact .bitsInt _
-    | case11 => exact .stringCode
-    | case12 => exact .codeString
-    | case13 a b ih => exact .list (ih h)
-    | case14 i n j m =>
+    | case9 => exact .bitBits1
+    | case10 => exact .bits1Bit
+    | case11 => exact .intBits _
+    | case12 => exact .bitsInt _
+    | case13 => exact .stringCode
+    | case14 => exact .codeString
+    | case15 a b ih => exact .list (ih h)
+    | case16 i n j m =>
       simp only [Bool.or_eq_true, beq_iff_eq] at h
       rcases h with rfl | h
       · exact .recordSame _ _ _
       · exact .recordSub _ _ h
-    | case15 a b =>
+    | case17 a b =>
       rw [Ty.beq_iff_eq] at h
       subst h
       exact .refl _
@@ -749,6 +755,7 @@ conclusion says what the function itself adds after them (`if cast then c4 else 
 | P3  ParentClassList, own class (467)                     | a record cannot inherit from itself         | `parent_self_inherit` |
 | P1  resolve_class_ref_as_class (519)                     | class not found: ‹n›                        | `classRef_class_lookup` |
 | P2  resolve_class_ref_as_multiclass (552; multiclass parents; first parent of a defm; later defm parents that do not name a class only) | multiclass not found: ‹n› | `classRef_multiclass_lookup` |
+| P2″ ParentClassList, multiclass branch (parents of a multiclass, and of a defm written inside one) | class parents of such a defm: no `class not found`, arguments checked against the class | `multiclass_later_parent` |
 | P2′ ParentClassList, defm branch: which lookup a parent gets (`names_class_only`) | class parents of a defm: no `class not found`, template arguments checked against the class | `defm_later_parent`, `namesClassOnly_run` |
 | C1–C5 check_template_args (586, 609, 617, 628, 642)      | too many arguments / only once / doesn't exist / is type of … / value not specified | section (2): `checkTemplateArgs_run`, `too_many_arguments`, `named_rebound`, `positional_type_error`, `named_type_error`, `value_not_specified` |
 | N1  ArgValue, named (675)                                | the name of named argument should be a valid identifier | `namedArg_bad_name`, converse `namedArg_good_name` |
@@ -767,9 +774,11 @@ conclusion says what the function itself adds after them (`if cast then c4 else 
 
 NOT covered (the diagnostics these sites emit are only known to be attributed to the current file,
 (5a)): the 17 type checks written inline in `bang_operator.rs` that compare two operand types with
-each other - model lines `Bang.lean` 149 (`!eq`/`!ne`), 228 (`!lt`…), 265 (`!foreach` list), 280
-(`!if` branches), 313/318 (`!listconcat`), 332 (`!listsplat`/`!filter` list), 341/346 (`!listremove`),
-382/385/387 (`!range`), 434 (`!strconcat` variants), 449/451/454 (`!subst`), 473 (`!foldl`).
+each other - model lines `Bang.lean` 149 (`!eq`/`!ne`), 228 (`!lt`…), 265 (`!foreach` list), 284
+(`!if` branches: reported only when neither branch can be cast to the other and `common_typ` finds
+nothing), 317/327 (`!listconcat`: an operand is reported only when it has no common type with the
+list type so far), 341 (`!listsplat`/`!filter` list), 350/355 (`!listremove`),
+391/394/396 (`!range`), 443 (`!strconcat` variants), 458/460/463 (`!subst`), 482 (`!foldl`).
 No `defvar` / `foreach` check exists in `index.rs` (their initialiser types are stored, never compared).
 No check at all exists for the top-level `let` statement: see `letItem_unchecked` at the end of the file
 (a fault class that is **not reported**). -/
@@ -1187,8 +1196,11 @@ theorem fieldLet_field_not_found_reported (n : PTree) (c c' : IndexCtx) (f : Nat
 
 include hv in
 /-- **site L2 `field '…' of type '…' is incompatible with type '…'` (`let f = v` in a record body)**,
-both directions: the field exists (so no `field not found`), the override is declared with the type
-of the overridden field, and after indexing the value exactly one diagnostic is appended at the value
+both directions: the field exists (so no `field not found`); if it is inherited (its `parent` is another
+record) the override is declared as a new field of this record with the type of the overridden field,
+if this record declares it itself nothing is declared (`cd` is the state after that step, in both
+cases); the reference to the found field is registered; and after indexing the value exactly one
+diagnostic is appended at the value
 iff the value's type cannot be cast to the *compared* type `cmpTyp`: the field's type for a plain
 `let f = v;`, and `rangeTyp (some rangeList)` - the bits that the range list selects (`bit` for one
 bit, `bits w` for `w`, `unknown` when a bound cannot be read) - for `let f{…} = v;` -/
@@ -1201,11 +1213,11 @@ theorem fieldLet_value (n : PTree) (c : IndexCtx) (f : Nat) (rest : List Nat) (h
     (cmpTyp : Ty) (hcmp : cmpTyp = match Ast.fieldLetRangeList n with
       | some rangeList => rangeTyp (some rangeList)
       | none => fieldTyp)
+    (cd : IndexCtx) (hcd : cd = if ((c.symbolMap.recordField fieldId).parent != recordId) = true
+      then withField c recordId ⟨name, fieldTyp, recordId, loc⟩ else c)
     (value : PTree) (hvn : Ast.fieldLetValue n = some value)
     (valueTyp : Ty) (c4 : IndexCtx)
-    (hval : (r.value value).run
-      ((withField c recordId ⟨name, fieldTyp, recordId, loc⟩).setSM
-        ((withField c recordId ⟨name, fieldTyp, recordId, loc⟩).symbolMap.addReference (.recordField fieldId) loc))
+    (hval : (r.value value).run (cd.setSM (cd.symbolMap.addReference (.recordField fieldId) loc))
       = .ok (some valueTyp, c4)) :
     (indexFieldLet r n).run c = .ok ((),
       if c4.symbolMap.canBeCastedTo valueTyp cmpTyp then c4
@@ -1213,27 +1225,50 @@ theorem fieldLet_value (n : PTree) (c : IndexCtx) (f : Nat) (rest : List Nat) (h
         s!"field '{name}' of type '{cmpTyp}' is incompatible with type '{valueTyp}'") := by
   subst hfty
   subst hcmp
-  have hft4 : c4.fileTrace = f :: rest := by rw [((hv _).run _ _ _ hval).trace]; exact hft
+  subst hcd
   unfold indexFieldLet
-  unfold withField at hval
-  simp only [hnn, StateT.run_bind, utilsIdentifier_runOf nameNode c f rest hft, hid, Except.ok_bind,
-    currentRecordId_run, hrec, withSM_run, hfound, addRecordField_run, recordMut_run, addReference_run, hvn, hval,
-    canBeCastedTo_run]
-  cases Ast.fieldLetRangeList n with
-  | none =>
-    simp only
-    by_cases hc : c4.symbolMap.canBeCastedTo valueTyp (c.symbolMap.recordField fieldId).typ = true
-    · simp only [hc, Bool.not_true, Bool.false_eq_true, if_false, if_true]
-      rfl
-    · simp only [hc, Bool.not_false, if_true, error_run _ _ c4 f rest hft4]
-      rfl
-  | some rangeList =>
-    simp only
-    by_cases hc : c4.symbolMap.canBeCastedTo valueTyp (rangeTyp (some rangeList)) = true
-    · simp only [hc, Bool.not_true, Bool.false_eq_true, if_false, if_true]
-      rfl
-    · simp only [hc, Bool.not_false, if_true, error_run _ _ c4 f rest hft4]
-      rfl
+  by_cases hpar : ((c.symbolMap.recordField fieldId).parent != recordId) = true
+  · simp only [hpar, if_true] at hval
+    have hft4 : c4.fileTrace = f :: rest := by rw [((hv _).run _ _ _ hval).trace]; exact hft
+    unfold withField at hval
+    simp only [hnn, StateT.run_bind, utilsIdentifier_runOf nameNode c f rest hft, hid, Except.ok_bind,
+      currentRecordId_run, hrec, withSM_run, hfound, hpar, if_true, addRecordField_run, recordMut_run,
+      addReference_run, hvn, hval, canBeCastedTo_run]
+    cases Ast.fieldLetRangeList n with
+    | none =>
+      simp only
+      by_cases hc : c4.symbolMap.canBeCastedTo valueTyp (c.symbolMap.recordField fieldId).typ = true
+      · simp only [hc, Bool.not_true, Bool.false_eq_true, if_false, if_true]
+        rfl
+      · simp only [hc, Bool.not_false, if_true, error_run _ _ c4 f rest hft4]
+        rfl
+    | some rangeList =>
+      simp only
+      by_cases hc : c4.symbolMap.canBeCastedTo valueTyp (rangeTyp (some rangeList)) = true
+      · simp only [hc, Bool.not_true, Bool.false_eq_true, if_false, if_true]
+        rfl
+      · simp only [hc, Bool.not_false, if_true, error_run _ _ c4 f rest hft4]
+        rfl
+  · simp only [hpar, Bool.false_eq_true, if_false] at hval
+    have hft4 : c4.fileTrace = f :: rest := by rw [((hv _).run _ _ _ hval).trace]; exact hft
+    simp only [hnn, StateT.run_bind, utilsIdentifier_runOf nameNode c f rest hft, hid, Except.ok_bind,
+      currentRecordId_run, hrec, withSM_run, hfound, hpar, Bool.false_eq_true, if_false, pure_bind,
+      addReference_run, hvn, hval, canBeCastedTo_run]
+    cases Ast.fieldLetRangeList n with
+    | none =>
+      simp only
+      by_cases hc : c4.symbolMap.canBeCastedTo valueTyp (c.symbolMap.recordField fieldId).typ = true
+      · simp only [hc, Bool.not_true, Bool.false_eq_true, if_false, if_true]
+        rfl
+      · simp only [hc, Bool.not_false, if_true, error_run _ _ c4 f rest hft4]
+        rfl
+    | some rangeList =>
+      simp only
+      by_cases hc : c4.symbolMap.canBeCastedTo valueTyp (rangeTyp (some rangeList)) = true
+      · simp only [hc, Bool.not_true, Bool.false_eq_true, if_false, if_true]
+        rfl
+      · simp only [hc, Bool.not_false, if_true, error_run _ _ c4 f rest hft4]
+        rfl
 
 end sub
 
@@ -1578,6 +1613,116 @@ theorem defm_later_parent (n : PTree) (c c' : IndexCtx) (f : Nat) (rest : List N
             obtain ⟨hres, avs, c3, rs, a1, a2, a3⟩ := this res c2 k1
             subst hres
             exact ⟨nameNode, name, loc, classId, rfl, hid, hmc, hcls, avs, c3, rs, k1, a1, a2, a3⟩
+    · keeps
+    · keeps
+  · intro x cx st cy h
+    obtain ⟨b, cz, j1, j2⟩ := IxM.run_bind_ok h
+    split at j2
+    · obtain ⟨_, _, _, j3⟩ := IxM.run_bind_ok j2
+      simp only [StateT.run_pure] at j3; cases j3; rfl
+    · obtain ⟨_, _, _, j3⟩ := IxM.run_bind_ok j2
+      simp only [StateT.run_pure] at j3; cases j3; rfl
+
+/-- **site P2″ the parents of a `multiclass` - and of a `defm` written inside a multiclass, whose
+parent list is indexed in the multiclass branch (`inDefm`)** - after the first: the first parent is
+resolved as a multiclass (`multiclassParent`).  A later parent `classRef` is resolved
+* as a **class** iff the list belongs to a `defm` (`inDefm = true`) and its name denotes a class and
+  no multiclass: then the iteration is exactly `resolveClassRefAsClass` - no `class not found`, the
+  template arguments are checked against the class;
+* as a multiclass otherwise (`multiclassParent`: in a plain multiclass always). -/
+theorem multiclass_later_parent (n : PTree) (c c' : IndexCtx) (f : Nat) (rest : List Nat) (hft : c.fileTrace = f :: rest)
+    (hnorec : c.scopes.currentRecordId = none)
+    (mcId : Nat) (hmc : c.scopes.currentMulticlassId = some mcId)
+    (inDefm : Bool) (hdefm : c.scopes.currentDefmId.isSome = inDefm)
+    (first : PTree) (pre : List PTree) (classRef : PTree) (post : List PTree)
+    (hsplit : Ast.parentClassListClasses n = first :: (pre ++ classRef :: post))
+    (hrun : (indexParentClassList r n).run c = .ok ((), c')) :
+    ∃ c0 c1 c2, (multiclassParent r mcId first).run c = .ok ((), c0) ∧ AttrRel c0 c1 ∧ (pre = [] → c1 = c0) ∧
+      AttrRel c2 c' ∧
+      ((inDefm = true ∧ ∃ nameNode name loc classId, Ast.classRefName classRef = some nameNode ∧ identOf f nameNode = some (name, loc) ∧
+          c1.symbolMap.findMulticlass name = none ∧ c1.symbolMap.findClass name = some classId ∧
+          ∃ avs c3 rs,
+            (resolveClassRefAsClass r classRef).run c1 = .ok (some classId, c2) ∧
+            (argValuesOf r (Ast.classRefArgValueList classRef)).run
+              (c1.setSM (c1.symbolMap.addReference (.record classId) loc)) = .ok (avs, c3) ∧
+            checkPure c3.symbolMap (classParams (c1.symbolMap.addReference (.record classId) loc) classId) avs
+              (nodeRange classRef) = some rs ∧
+            c2 = reportAll c3 f rs) ∨
+       ((inDefm = false ∨ (namesClassOnly classRef).run c1 = .ok (false, c1)) ∧
+          (multiclassParent r mcId classRef).run c1 = .ok ((), c2))) := by
+  unfold indexParentClassList at hrun
+  simp only [StateT.run_bind, currentRecordId_run, hnorec, Except.ok_bind, currentMulticlassId_run, hmc,
+    currentDefmId_run, hdefm, hsplit] at hrun
+  obtain ⟨⟨u0, c0⟩, h0, hrun⟩ := Except.bind_ok_inv hrun
+  have r0 : AttrRel c c0 := (Index.multiclassParent_keeps hv ht mcId first).run _ _ _ h0
+  obtain ⟨⟨u, c''⟩, hloop, hpure⟩ := Except.bind_ok_inv hrun
+  simp only [StateT.run_pure] at hpure
+  cases hpure
+  have hsplitrun := forIn_unit_split _ pre classRef post c0 c' _ ?_ hloop
+  · obtain ⟨c1, c2, i1, i2, i3⟩ := hsplitrun
+    have r1 : AttrRel c0 c1 := (?_ : Keeps AttrRel _).run _ _ _ i1
+    have r3 : AttrRel c2 c' := (?_ : Keeps AttrRel _).run _ _ _ i3
+    · have hft1 : c1.fileTrace = f :: rest := by rw [r1.trace, r0.trace]; exact hft
+      have hpre : pre = [] → c1 = c0 := by
+        intro hp
+        subst hp
+        simp only [List.forIn_nil, StateT.run_pure] at i1
+        cases i1
+        rfl
+      refine ⟨c0, c1, c2, h0, r1, hpre, r3, ?_⟩
+      obtain ⟨b, c1', j1, j2⟩ := IxM.run_bind_ok i2
+      have hnames := namesClassOnly_run classRef c1 f rest hft1
+      have hb : (match Ast.classRefName classRef with
+          | none => false
+          | some nameNode =>
+            match identOf f nameNode with
+            | none => false
+            | some (name, _) => (c1.symbolMap.findMulticlass name).isNone && (c1.symbolMap.findClass name).isSome) = b
+          ∧ c1 = c1' := by
+        rw [hnames] at j1
+        cases j1
+        exact ⟨rfl, rfl⟩
+      obtain ⟨hb, rfl⟩ := hb
+      rw [hb] at hnames
+      cases inDefm with
+      | false =>
+        simp only [Bool.false_and, Bool.false_eq_true, if_false] at j2
+        obtain ⟨_, c2', k1, k2⟩ := IxM.run_bind_ok j2
+        simp only [StateT.run_pure] at k2
+        cases k2
+        exact Or.inr ⟨Or.inl rfl, k1⟩
+      | true =>
+      cases b with
+      | false =>
+        simp only [Bool.and_false, Bool.false_eq_true, if_false] at j2
+        obtain ⟨_, c2', k1, k2⟩ := IxM.run_bind_ok j2
+        simp only [StateT.run_pure] at k2
+        cases k2
+        exact Or.inr ⟨Or.inr hnames, k1⟩
+      | true =>
+        simp only [Bool.and_self, if_true] at j2
+        obtain ⟨res, c2', k1, k2⟩ := IxM.run_bind_ok j2
+        simp only [StateT.run_pure] at k2
+        cases k2
+        left
+        cases hnn : Ast.classRefName classRef with
+        | none => rw [hnn] at hb; cases hb
+        | some nameNode =>
+          rw [hnn] at hb
+          simp only at hb
+          cases hid : identOf f nameNode with
+          | none => rw [hid] at hb; cases hb
+          | some nl =>
+            obtain ⟨name, loc⟩ := nl
+            rw [hid] at hb
+            simp only [Bool.and_eq_true, Option.isNone_iff_eq_none] at hb
+            obtain ⟨hmc', hcls⟩ := hb
+            obtain ⟨classId, hcls⟩ := Option.isSome_iff_exists.1 hcls
+            have := classRef_class_lookup hv ht classRef c1 f rest hft1 nameNode hnn name loc hid
+            rw [hcls] at this
+            obtain ⟨hres, avs, c3, rs, a1, a2, a3⟩ := this res c2 k1
+            subst hres
+            exact ⟨rfl, nameNode, name, loc, classId, rfl, hid, hmc', hcls, avs, c3, rs, k1, a1, a2, a3⟩
     · keeps
     · keeps
   · intro x cx st cy h
@@ -2171,22 +2316,48 @@ example : ∃ c', (indexFieldLet exR fieldLetX).run cRec = .ok ((), c') ∧
   exact ⟨c', hrun, fieldLet_field_not_found_reported exR_value fieldLetX cRec c' 0 [] rfl identX rfl "x" ⟨0, 4, 5⟩ rfl 0 rfl
     noField_x hrun⟩
 
-/-- the state in which the value of `let x = …` is indexed, in `cF` (where record 0 has `int x`) -/
-def cL : IndexCtx :=
-  (withField cF 0 ⟨"x", .int, 0, ⟨0, 4, 5⟩⟩).setSM
-    ((withField cF 0 ⟨"x", .int, 0, ⟨0, 4, 5⟩⟩).symbolMap.addReference (.recordField 0) ⟨0, 4, 5⟩)
+/-- the state in which the value of `let x = …` is indexed, in `cF` (where record 0 declares `int x`
+itself: no new field, only the reference) -/
+def cL : IndexCtx := cF.setSM (cF.symbolMap.addReference (.recordField 0) ⟨0, 4, 5⟩)
 
-/-- L2: a string for the `int` field -/
+theorem cF_own : (if ((cF.symbolMap.recordField 0).parent != 0) = true then withField cF 0 ⟨"x", .int, 0, ⟨0, 4, 5⟩⟩ else cF) = cF := by
+  have : ((cF.symbolMap.recordField 0).parent != 0) = false := by decide +kernel
+  simp [this]
+
+/-- L2: a string for the `int` field (a field of the record itself) -/
 example : (indexFieldLet exR fieldLetBad).run cF = .ok ((), cL.report 0 (8, 11)
     s!"field '{"x"}' of type '{Ty.int}' is incompatible with type '{Ty.string}'") := by
   rw [fieldLet_value exR_value fieldLetBad cF 0 [] rfl identX rfl "x" ⟨0, 4, 5⟩ rfl 0 rfl 0 field_x .int rfl .int rfl
-    strValue rfl .string cL rfl]
+    cF cF_own.symm strValue rfl .string cL rfl]
   rfl
 
 /-- L2, converse -/
 example : (indexFieldLet exR fieldLetX).run cF = .ok ((), cL) := by
   rw [fieldLet_value exR_value fieldLetX cF 0 [] rfl identX rfl "x" ⟨0, 4, 5⟩ rfl 0 rfl 0 field_x .int rfl .int rfl
-    intValue rfl .int cL rfl]
+    cF cF_own.symm intValue rfl .int cL rfl]
+  rfl
+
+/-- inside the body of `def d : A` (record 1, parent record 0 which declares `int x`) -/
+def cInh : IndexCtx :=
+  let sm1 := (cF.symbolMap.addRecord { name := "d", kind := .def_, parentList := #[0], defineLoc := ⟨0, 20, 21⟩ } false).2
+  { cF with symbolMap := sm1, scopes := ({} : Scopes).push (.record 1) }
+
+theorem inherited_x : cInh.symbolMap.recordFindField 1 "x" = some 0 := by decide +kernel
+
+def cInhDecl : IndexCtx := withField cInh 1 ⟨"x", .int, 1, ⟨0, 4, 5⟩⟩
+
+theorem cInh_inherited : (if ((cInh.symbolMap.recordField 0).parent != 1) = true
+    then withField cInh 1 ⟨"x", .int, 1, ⟨0, 4, 5⟩⟩ else cInh) = cInhDecl := by
+  have : ((cInh.symbolMap.recordField 0).parent != 1) = true := by decide +kernel
+  simp [this, cInhDecl]
+
+/-- L2 on an inherited field: the override is declared as a new field of record 1 (`cInhDecl`), then
+the reference is registered and the value checked -/
+example : (indexFieldLet exR fieldLetBad).run cInh =
+    .ok ((), (cInhDecl.setSM (cInhDecl.symbolMap.addReference (.recordField 0) ⟨0, 4, 5⟩)).report 0 (8, 11)
+      s!"field '{"x"}' of type '{Ty.int}' is incompatible with type '{Ty.string}'") := by
+  rw [fieldLet_value exR_value fieldLetBad cInh 0 [] rfl identX rfl "x" ⟨0, 4, 5⟩ rfl 1 rfl 0 inherited_x .int rfl .int rfl
+    cInhDecl cInh_inherited.symm strValue rfl .string _ rfl]
   rfl
 
 
@@ -2451,24 +2622,39 @@ example : (indexLetItem exR (.node .LetItem 0 7 4 #[identX, .token .Equal 2 3 "=
 
 /-! ## (6) soundness on a declaratively specified core -/
 
-/-- **(6a)** on a core statement list (`coreStatementList`, `Lemmas/IdeSemDiagCore.lean`: classes and
-defs without template parameters and parents whose bodies are field definitions `T x [= literal];`
-with a primitive `T` and a literal castable to `T`) the indexer appends no diagnostic, in any context -/
-theorem core_statements_quiet (k : Nat) (sl : PTree) (hcore : coreStatementList sl = true) (c c' : IndexCtx)
-    (h : ((mkRec (k + 2)).statementList sl).run c = .ok ((), c')) : c'.diagnostics = c.diagnostics :=
-  (indexStatementList_quiet k sl hcore).run _ _ _ h
+/-- **the judgement of (6)**: a statement list is a *core program* if it passes one of the two
+checkers (both are Boolean functions of the tree, so concrete programs are checked by `decide`).
 
-/-- **(6b) `core_no_diagnostics_partial`**: a workspace whose root file is a core program (and has no
-other statements - in particular no `include`) is indexed without any diagnostic.
+Accepted: a sequence of `class C { … }` and `def d { … }` statements (named or anonymous defs)
+without template parameters and without parent classes, whose bodies consist of field definitions
+`T x;` / `T x = init;` where
+* `T` is a primitive type: `bit`, `int`, `string`, `code`, `dag`, `bits<n>`;
+* `init` is a single literal - integer, string, code, boolean, `?` - whose type can be cast to `T`
+  (`coreStatementList`, `Lemmas/IdeSemDiagCore.lean`), or
+* `init` is a single identifier naming a field declared earlier in the same body, or `x` itself, whose
+  declared type can be cast to `T` (`coreStatementList2`, `Lemmas/IdeSemCore.lean`; the later of two
+  declarations of a name counts).
 
-Covered constructs: `class` and `def` statements, typed fields (`bit`, `int`, `string`, `code`,
-`dag`, `bits<n>`) with or without a literal initialiser (integer, string, code, boolean, `?`).
-Not covered (the judgement rejects them): template arguments, parent classes, `let`, identifiers and
-class values as initialisers, `list<…>` / class types, `defvar`, `foreach`, `if`, `defset`,
-`multiclass`/`defm`, bang operators, `include`. -/
+Rejected (not covered): template arguments, parent classes, `let`, class values and every other
+value form as initialiser, identifiers naming anything but a field of the same record, `list<…>` and
+class types, `defvar`, `foreach`, `if`, `defset`, `multiclass`/`defm`, bang operators, `include`. -/
+def coreProgramB (sl : PTree) : Bool := coreStatementList sl || coreStatementList2 sl
+
+/-- **(6a)** on a core program the indexer appends no diagnostic, in any context with a current file -/
+theorem core_statements_quiet (k : Nat) (sl : PTree) (hcore : coreProgramB sl = true) (c c' : IndexCtx)
+    (htr : c.fileTrace ≠ [])
+    (h : ((mkRec (k + 2)).statementList sl).run c = .ok ((), c')) : c'.diagnostics = c.diagnostics := by
+  unfold coreProgramB at hcore
+  rcases Bool.or_eq_true_iff.1 hcore with h1 | h2
+  · exact (indexStatementList_quiet k sl h1).run _ _ _ h
+  · exact indexStatementList2_quiet k sl h2 c c' htr h
+
+/-- **(6b) `core_no_diagnostics_partial`**: a workspace whose root file is a core program
+(`coreProgramB`, see there for exactly what is accepted) and has no other statements - in particular
+no `include` - is indexed without any diagnostic -/
 theorem core_no_diagnostics_partial (ws : Workspace) (res : IndexResult) (h : index ws = .ok res)
     (sf sl : PTree) (hsf : Ast.sourceFileCast (ws.tree ws.root) = some sf)
-    (hsl : Ast.sourceFileStatementList sf = some sl) (hcore : coreStatementList sl = true) :
+    (hsl : Ast.sourceFileStatementList sf = some sl) (hcore : coreProgramB sl = true) :
     res.diagnostics = #[] := by
   unfold index at h
   rw [hsf] at h
@@ -2485,7 +2671,27 @@ theorem core_no_diagnostics_partial (ws : Workspace) (res : IndexResult) (h : in
         rw [hsl]
       rw [this] at hrun
       exact hrun
-    exact core_statements_quiet (j + 1) sl hcore _ _ hrun'
+    exact core_statements_quiet (j + 1) sl hcore _ _ (by simp [IndexCtx.new]) hrun'
+
+/-- the judgement on the root file of a workspace -/
+def coreWorkspaceB (ws : Workspace) : Bool :=
+  match Ast.sourceFileCast (ws.tree ws.root) with
+  | some sf =>
+    match Ast.sourceFileStatementList sf with
+    | some sl => coreProgramB sl
+    | none => false
+  | none => false
+
+theorem core_workspace_no_diagnostics (ws : Workspace) (res : IndexResult) (h : index ws = .ok res)
+    (hcore : coreWorkspaceB ws = true) : res.diagnostics = #[] := by
+  unfold coreWorkspaceB at hcore
+  split at hcore
+  · rename_i sf hsf
+    split at hcore
+    · rename_i sl hsl
+      exact core_no_diagnostics_partial ws res h sf sl hsf hsl hcore
+    · cases hcore
+  · cases hcore
 
 
 /-- `class A { int x = 1; string s; }` / `def d { bit b = ?; }` (positions are schematic) -/
@@ -2592,12 +2798,12 @@ theorem rangeTyp_0 : rangeTyp (some range_0) = .bit := by
   rfl
 
 /-- L2 with a bit range: the value is compared with the selected bits (`bit`), not with the field's
-type (`int`) - while the new field keeps the whole field type (`cL`) -/
+type (`int`) -/
 example : (indexFieldLet exR fieldLetBit).run cF = .ok ((), cL.report 0 (8, 11)
     s!"field '{"x"}' of type '{Ty.bit}' is incompatible with type '{Ty.string}'") := by
   rw [fieldLet_value exR_value fieldLetBit cF 0 [] rfl identX rfl "x" ⟨0, 4, 5⟩ rfl 0 rfl 0 field_x .int rfl
     .bit (by rw [show Ast.fieldLetRangeList fieldLetBit = some range_0 from rfl]; exact rangeTyp_0.symm)
-    strValue rfl .string cL rfl]
+    cF cF_own.symm strValue rfl .string cL rfl]
   rfl
 
 /-- `{1, 0}{0}`: a two-bit value of which bit 0 is selected -/
@@ -2695,6 +2901,84 @@ example (c' : IndexCtx) (hrun : (indexParentClassList exR parentsAA).run cDefm =
   let ⟨c0', c1, c2, h0, h1, _, h3, _⟩ := defm_later_parent exR_value exR_typ parentsAA cDefm c' 0 [] rfl rfl rfl 0 rfl
     classRefA [] classRefA2 [] rfl hrun
   ⟨c0', c1, c2, h0, h1, h3⟩
+
+
+
+/-- a seven-statement program of the core: literals of every kind, uses of earlier fields (`width`,
+`raw`, `idx`, `label`, `size`, `base`), a `bits<4>` field, an anonymous def -/
+def coreSource : String :=
+  "class Reg { int width = 32; int bytes = width; string name = \"r\"; bit live = ?; }\n" ++
+  "class Flags { bits<4> mask; int raw = 0; int copy = raw; }\n" ++
+  "def r0 { int idx = 0; int next = idx; string label = \"r0\"; }\n" ++
+  "def r1 { int idx = 1; string label = \"r1\"; string alias = label; }\n" ++
+  "class Mem { int size = 1024; int words = size; code init = [{ }]; }\n" ++
+  "def m0 { int base = 0; int top = base; }\n" ++
+  "def { int anon = 7; }\n"
+
+/-- the program is built by `buildWorkspace`, accepted by the judgement (checked by evaluation), its
+index run succeeds (C03) and - by `core_workspace_no_diagnostics` - reports nothing -/
+example : ∃ ws res, buildWorkspace [("/w/core.td", coreSource)] "/w/core.td" none = .ok ws ∧
+    coreWorkspaceB ws = true ∧ index ws = .ok res ∧ res.diagnostics = #[] := by
+  have hk : (match buildWorkspace [("/w/core.td", coreSource)] "/w/core.td" none with
+      | .ok ws => coreWorkspaceB ws
+      | .error _ => false) = true := by decide +kernel
+  cases hb : buildWorkspace [("/w/core.td", coreSource)] "/w/core.td" none with
+  | error e => rw [hb] at hk; cases hk
+  | ok ws =>
+    rw [hb] at hk
+    obtain ⟨res, hres⟩ := Tg.C03.index_never_panics _ _ _ ws hb
+    exact ⟨ws, res, rfl, hk, hres, core_workspace_no_diagnostics ws res hres hk⟩
+
+/-- the second checker alone accepts it (the first one does not: it has identifier initialisers) -/
+example : (match buildWorkspace [("/w/core.td", coreSource)] "/w/core.td" none with
+    | .ok ws =>
+      match (Ast.sourceFileCast (ws.tree ws.root)).bind Ast.sourceFileStatementList with
+      | some sl => coreStatementList2 sl && !coreStatementList sl
+      | none => false
+    | .error _ => false) = true := by decide +kernel
+
+/-- and a type-incompatible use of an earlier field is rejected by the judgement -/
+example : (match buildWorkspace [("/w/bad.td", "class A { string s = \"a\"; int n = s; }\n")] "/w/bad.td" none with
+    | .ok ws => coreWorkspaceB ws
+    | .error _ => true) = false := by decide +kernel
+
+/-! ### the cast rule between `bit` and `bits<1>`; widths of binary literals; common types -/
+
+/-- one bit is a `bits<1>` and conversely -/
+theorem bit_bits1 (sub : Nat → Nat → Bool) :
+    Ty.canBeCastedTo sub .bit (.bits 1) = true ∧ Ty.canBeCastedTo sub (.bits 1) .bit = true := ⟨rfl, rfl⟩
+
+example : Castable (fun _ _ => false) .bit (.bits 1) := .bitBits1
+example : ¬ Castable (fun _ _ => false) .bit (.bits 2) := by
+  rw [← canBeCastedTo_iff]; decide
+
+/-- the value `0b10` -/
+def binValue : PTree :=
+  .node .Value 0 4 3 #[.node .InnerValue 0 4 2 #[.node .Integer 0 4 1 #[.token .BinaryIntVal 0 4 "0b10"]]]
+
+/-- `utils::binary_literal_width`: a binary literal is as wide as it has digits; a decimal one has no width -/
+theorem binaryLiteralWidth_examples :
+    binaryLiteralWidth binValue = some 2 ∧ binaryLiteralWidth intValue = none := by decide +kernel
+
+/-- classes `A`, `B : A`, `C : A` -/
+def smABC : SymMap :=
+  (((SymMap.addRecord {} { name := "A", kind := .cls, defineLoc := ⟨0, 0, 0⟩ } false).2.addRecord
+    { name := "B", kind := .cls, parentList := #[0], defineLoc := ⟨0, 0, 0⟩ } false).2.addRecord
+    { name := "C", kind := .cls, parentList := #[0], defineLoc := ⟨0, 0, 0⟩ } false).2
+
+theorem optTy_eq {o : Option Ty} {t : Ty} (h : (match o with | some x => x == t | none => false) = true) : o = some t := by
+  cases o with
+  | none => cases h
+  | some x => rw [(Ty.beq_iff_eq x t).1 h]
+
+/-- `Type::common_typ`: two records (and lists of them) that derive from a common class have that
+class in common; unrelated primitive types have nothing in common -/
+theorem commonTyp_examples :
+    smABC.commonTyp (.record 1 "B") (.record 2 "C") = some (.record 0 "A") ∧
+    smABC.commonTyp (.list (.record 1 "B")) (.list (.record 2 "C")) = some (.list (.record 0 "A")) ∧
+    smABC.canBeCastedTo (.record 1 "B") (.record 2 "C") = false ∧
+    smABC.commonTyp .int .string = none := by
+  refine ⟨optTy_eq (by decide +kernel), optTy_eq (by decide +kernel), by decide +kernel, rfl⟩
 
 
 end Tg.C13
